@@ -110,6 +110,12 @@ pub fn check_symbol(q: &QRCode, input: &[u8], o: &Opts) -> Vec<Finding> {
     if let Some(fv) = q.version {
         if fv as usize + 1 != v {
             out.push(f("C03", "size-vs-reported-version", format!("the symbol reports version {} but its side is {} (= version {})", fv as usize + 1, n, v)));
+            out.push(f("C15", "labels-of-another-version", format!("the symbol reports version {} but its side and label map are those of version {}", fv as usize + 1, v)));
+        }
+    }
+    if let Some(fv) = o.version {
+        if fv as usize != v && q.version.map(|x| x as usize + 1) == Some(v) {
+            out.push(f("C15", "labels-of-another-version", format!("version {} was forced but the side and label map are those of version {}", fv, v)));
         }
     }
     if let Some(i) = q.data[n * n..].iter().position(|m| m.0 != 0) {
